@@ -72,9 +72,10 @@ ASSUMPTIONS = [
     "polynomial / linear ones (their values grow with |x|, relative oracles then only see the far rows)",
     "k_and_deriv(X) (Y omitted) is the derivative with the second argument held fixed, as documented in "
     "DiffRBF.k_and_deriv",
-    "DFTKernel: POL mode with nspin == 1 returns the partial derivative with respect to the alpha slot (equal to the "
-    "nspin == 2 result on the duplicated input), which is what train.py consumes; that convention is checked, "
-    "not the total derivative. Baseline callables are not exercised (they belong to C04/C11)",
+    "DFTKernel: POL mode with nspin == 1 must return the derivative of the returned kernel values with respect to the "
+    "single-channel input, i.e. the sum of the two channel partials of the nspin == 2 result on the duplicated input "
+    "(this is what the orbital-derivative covariances in train.py need, cf. C16). Baseline callables are not exercised "
+    "(they belong to C04/C11)",
     "trusted: numpy / scipy / scikit-learn base classes (RBF, ConstantKernel, WhiteKernel, Sum, Product, "
     "Exponentiation value formulas), numpy.linalg.eigvalsh",
 ]
@@ -1499,11 +1500,10 @@ def _run_dft(case, rec, rng):
             except _Fail:
                 continue
             gs = max(float(np.max(np.abs(dkd3))), 1e-300)
-            rec.check("dft_pol_rks_vs_uks", max(_rel(k2, k3), _rel(dkd[:, 0], dkd3[:, 0], gs)), TOL_EXACT,
+            # unpolarised input feeds both channels: total derivative = sum of the two channel partials
+            rec.check("dft_pol_rks_vs_uks", max(_rel(k2, k3), _rel(dkd[:, 0], dkd3[:, 0] + dkd3[:, 1], gs)), TOL_EXACT,
                       mechanism="DFTKernel.get_k_and_deriv[POL]", detail=det)
-            fac = 0.5
-        else:
-            fac = 1.0
+        fac = 1.0
         worst, concl = 0.0, 0
         for s in range(nspin):
             for j in range(N0):
